@@ -3,6 +3,7 @@ import VlsModel.Gen.FnEnforce
 import VlsModel.Gen.FnSimpleState
 import VlsModel.Lemmas.FnGen
 import VlsModel.Lemmas.EnforcementFn
+import VlsModel.Props.C01Fn
 /-
 C02 — the guard that makes the CURRENT holder commitment the only one that can be signed for broadcast,
 `Validator::get_current_holder_commitment_info` (`vls-core/src/policy/validator.rs:279`, mechanism
@@ -156,5 +157,72 @@ theorem C02_fn_validate_holder_commitment_tx
         · subst d
           cases closed <;> simp [a, b, policyErr_strict]
         · simp [a, b, d]
+
+/-- **redundant signing** (`sign_holder_commitment_tx_phase2_redundant`, one of the three ways a holder signature is
+    released): the model's `signRedundant` is the generated point guard of `Channel::get_per_commitment_point` followed by
+    the generated state checks of `validate_holder_commitment_tx`; a signature for `n` is released exactly when both pass -/
+theorem C02_fn_signRedundant {K : Type} (ptf : Nat → Nat) (k : K)
+    (dO dR : Nat → Nat → Unit × Unit)
+    (vct : Gen.FnSimpleState.EnforcementState Nat Nat → Nat → Nat → Unit → Gen.FnSimpleState.ChainState → Nat → Rs.M Unit)
+    (c : Chan) (n pt info : Nat) (pk : Bool) (t0 : String)
+    (hs : c.slot = .ready) (hx : c.next + 1 ≤ Rs.U64_MAX)
+    (hv : vct (toSV c) n pt () ⟨⟩ info = contentRules pk t0) (hn : n + 2 ≤ Rs.U64_MAX) :
+    (signRedundant c n info pk).out.res
+        = (if cls (Gen.FnChannel.Channel.get_per_commitment_point ptf (C01Fn.toCh c k) n) ≠ .ok then .errPolicy
+           else cls (Gen.FnSimpleState.SimpleValidator.validate_holder_commitment_tx dO dR vct strict ⟨⟩ (toSV c) n pt () ⟨⟩ info))
+    ∧ ((signRedundant c n info pk).out.signed = some n ↔
+        cls (Gen.FnChannel.Channel.get_per_commitment_point ptf (C01Fn.toCh c k) n) = .ok
+        ∧ cls (Gen.FnSimpleState.SimpleValidator.validate_holder_commitment_tx dO dR vct strict ⟨⟩ (toSV c) n pt () ⟨⟩ info) = .ok)
+    ∧ ((signRedundant c n info pk).out.res ≠ .ok → (signRedundant c n info pk).c = c) := by
+  rw [← (C01Fn.C01_fn_get_per_commitment_point ptf c k n hs hx).2,
+      ← C02_fn_validate_holder_commitment_tx dO dR vct c n pt info pk t0 hv hn]
+  unfold signRedundant
+  by_cases g : getPoint c n ≠ .ok
+  · simp [g, fail]
+  · have g' : getPoint c n = .ok := by simpa using g
+    simp only [g, if_false]
+    cases hh : holderPolicy c n info pk <;> simp [fail, g']
+
+/-- **the whole validate request** (`validate_holder_commitment_tx(_phase2)`) of the model: generated point guard, generated
+    state checks, then the signature loop `checkSigs` (in the model since round 8) and the payment check; the commitment is
+    recorded (`validated = some n`) exactly when all of them pass -/
+theorem C02_fn_validate_request {K : Type} (ptf : Nat → Nat) (k : K)
+    (dO dR : Nat → Nat → Unit × Unit)
+    (vct : Gen.FnSimpleState.EnforcementState Nat Nat → Nat → Nat → Unit → Gen.FnSimpleState.ChainState → Nat → Rs.M Unit)
+    (c : Chan) (n pt info : Nat) (pk : Bool) (t0 : String) (commitOk payOk : Bool) (nHtlc : Nat) (sigs : List Bool)
+    (hs : c.slot = .ready) (hx : c.next + 1 ≤ Rs.U64_MAX)
+    (hv : vct (toSV c) n pt () ⟨⟩ info = contentRules pk t0) (hn : n + 2 ≤ Rs.U64_MAX) :
+    (validate c n info (sigFactOf commitOk nHtlc sigs payOk) pk).out.res
+        = (if cls (Gen.FnChannel.Channel.get_per_commitment_point ptf (C01Fn.toCh c k) n) ≠ .ok then .errPolicy
+           else match cls (Gen.FnSimpleState.SimpleValidator.validate_holder_commitment_tx dO dR vct strict ⟨⟩ (toSV c) n pt () ⟨⟩ info) with
+                | .ok => (match checkSigs commitOk nHtlc sigs with
+                          | .ok => if payOk then .ok else .errPolicy
+                          | .panic => .panic
+                          | _ => .errPolicy)
+                | r => r)
+    ∧ ((validate c n info (sigFactOf commitOk nHtlc sigs payOk) pk).out.validated = some n ↔
+        cls (Gen.FnChannel.Channel.get_per_commitment_point ptf (C01Fn.toCh c k) n) = .ok
+        ∧ cls (Gen.FnSimpleState.SimpleValidator.validate_holder_commitment_tx dO dR vct strict ⟨⟩ (toSV c) n pt () ⟨⟩ info) = .ok
+        ∧ checkSigs commitOk nHtlc sigs = .ok ∧ payOk = true) := by
+  rw [← (C01Fn.C01_fn_get_per_commitment_point ptf c k n hs hx).2,
+      ← C02_fn_validate_holder_commitment_tx dO dR vct c n pt info pk t0 hv hn]
+  unfold validate sigFactOf
+  by_cases g : getPoint c n ≠ .ok
+  · simp [g, fail]
+  · have g' : getPoint c n = .ok := by simpa using g
+    simp only [g, if_false]
+    cases hh : holderPolicy c n info pk <;> simp only [fail, g'] <;> try simp
+    rcases hcs : checkSigs commitOk nHtlc sigs with _ | _ | _ | _ | _ <;> cases payOk <;>
+      (by_cases e : n = c.next <;> simp [e])
+
+-- non-vacuity of the hypotheses of the composition theorems: next = 2, validate 2 with three HTLCs and three signatures
+example :=
+  C02_fn_validate_request (K := Unit) (fun n => n) () (fun _ _ => ((), ())) (fun _ _ => ((), ()))
+    (fun _ _ _ _ _ _ => contentRules true "") { slot := .ready, next := 2, cur := some 1 } 2 0 6 true "" true true 3
+    [true, true, true] rfl (by decide) rfl (by decide)
+example :=
+  C02_fn_signRedundant (K := Unit) (fun n => n) () (fun _ _ => ((), ())) (fun _ _ => ((), ()))
+    (fun _ _ _ _ _ _ => contentRules true "") { slot := .ready, next := 2, cur := some 1 } 1 0 1 true "" rfl (by decide) rfl
+    (by decide)
 
 end VlsModel.Props.C02Fn
